@@ -24,6 +24,13 @@ NOTES = ("All checks are property-based tests / fuzzers over generated inputs (D
 NOT_YET = {}
 
 TEXT = {
+    "C17": {
+        "engine": "engine-G",
+        "technique": "property-based testing: generated segmentation infos / partition infos and per-triangle label lists; set -> get round trip against a reference model of the documented renumbering and stable sort, structural check of the stored range records, metamorphic vertex deletion, save/reload",
+        "level_text": "Tens of thousands of FO4/FO76 sub-index shapes (0..600 triangles, 1..8 segments x 0..6 sub-segments, permuted ids, labels incl. -1 and labels directly on parent segments) and OB/FO3/SK/SSE skinned shapes: read-back must equal the request under the documented renumbering, triangles must be the previous ones stably sorted by label, range records must tile the triangle list, and all of it must survive vertex deletion and save+reload.",
+        "level_note": "Labels are drawn only from ids present in the info plus -1; the ssf name is compared after reload only when sub-segments exist (the format stores it with them).",
+        "design_ref": "DESIGN.md section 3, C17",
+    },
     "C16": {
         "engine": "engine-S",
         "technique": "fault injection: enumeration of truncation points (every offset of small files, header, block boundaries, block heads, strided payload) plus generated cuts on samples and synthesised files; crash/hang oracle in a forked sanitised child running load, query battery, default save, copy, destruction",
